@@ -54,9 +54,9 @@ def Walker.start (root : Node) (inhibit : Bool) : Walker Node := Walker.startP r
 theorem runInv_start (D : Path → Prop) (pp : Option PageId) (root : Node) (S S' : List (Key × VH))
     (steps : List (Step VH)) (inhibit : Bool) :
     RunInv H ps D pp root S S' [] steps (Walker.startP root pp inhibit)
-      (⟨[], flatStore H ps root, [], []⟩ : TW Node) := by
+      ({ pos := [], store := flatStore H ps root, log := [], cpr := [] } : TW Node) := by
   refine ⟨?_, rfl, rfl, Or.inl ⟨⟨by simp, rfl, rfl, rfl⟩, by simp⟩, rfl⟩
-  have hrecon : ReconInv H (Walker.startP root pp inhibit) (⟨[], flatStore H ps root, [], []⟩ : TW Node) := by
+  have hrecon : ReconInv H (Walker.startP root pp inhibit) ({ pos := [], store := flatStore H ps root, log := [], cpr := [] } : TW Node) := by
     refine ⟨?_, ?_, ?_, ?_⟩
     · intro o ho; cases ho
     · intro hr; cases hr
